@@ -397,6 +397,13 @@ class Index:
                 if len(ib) != 2 or not isinstance(ib[1], ast.Return) or not isinstance(ib[1].value, ast.Name) or ib[1].value.id != par:
                     continue
                 a = ib[0]
+                as_list = False
+                if isinstance(a, ast.Expr) and isinstance(a.value, ast.Call) and isinstance(a.value.func, ast.Attribute) and a.value.func.attr == "append" \
+                        and isinstance(a.value.func.value, ast.Name) and len(a.value.args) == 1 and not a.value.keywords:
+                    # a LIST registry: `_R.append((key, f))` -- the list of the appended items in definition order
+                    as_list = True
+                    tname_l, item_l = a.value.func.value.id, a.value.args[0]
+                    a = ast.Assign(targets=[ast.Subscript(value=ast.Name(id=tname_l, ctx=ast.Load()), slice=ast.Constant(value=None), ctx=ast.Store())], value=item_l)
                 if not (isinstance(a, ast.Assign) and len(a.targets) == 1 and isinstance(a.targets[0], ast.Subscript) and isinstance(a.targets[0].value, ast.Name)):
                     continue
                 # the stored value: the decorated object itself, or an expression of it and the factory's arguments (`Rule(f, cap=cap)`)
@@ -404,15 +411,24 @@ class Index:
                     continue
                 tname = a.targets[0].value.id
                 tdefs = m.defs.get(tname, [])
-                if len(tdefs) != 1 or not isinstance(tdefs[0], (ast.Assign, ast.AnnAssign)) or not (
-                        (isinstance(tdefs[0].value, ast.Dict) and not tdefs[0].value.keys)
-                        or (isinstance(tdefs[0].value, ast.Call) and isinstance(tdefs[0].value.func, ast.Name) and tdefs[0].value.func.id == "dict" and not tdefs[0].value.args and not tdefs[0].value.keywords)):
-                    continue
-                writes = [x for x in ast.walk(m.tree) if isinstance(x, ast.Subscript) and isinstance(x.ctx, (ast.Store, ast.Del)) and isinstance(x.value, ast.Name) and x.value.id == tname]
-                calls = [x for x in ast.walk(m.tree) if isinstance(x, ast.Call) and isinstance(x.func, ast.Attribute) and isinstance(x.func.value, ast.Name) and x.func.value.id == tname
-                         and x.func.attr in ("update", "setdefault", "pop", "popitem", "clear", "__setitem__")]
-                if len(writes) != 1 or calls:
-                    continue
+                if as_list:
+                    if len(tdefs) != 1 or not isinstance(tdefs[0], (ast.Assign, ast.AnnAssign)) or not (isinstance(tdefs[0].value, ast.List) and not tdefs[0].value.elts):
+                        continue
+                    writes = [x for x in ast.walk(m.tree) if isinstance(x, ast.Subscript) and isinstance(x.ctx, (ast.Store, ast.Del)) and isinstance(x.value, ast.Name) and x.value.id == tname]
+                    calls = [x for x in ast.walk(m.tree) if isinstance(x, ast.Call) and isinstance(x.func, ast.Attribute) and isinstance(x.func.value, ast.Name) and x.func.value.id == tname
+                             and x.func.attr in ("append", "extend", "insert", "pop", "remove", "clear", "sort", "reverse")]
+                    if writes or len(calls) != 1:
+                        continue
+                else:
+                    if len(tdefs) != 1 or not isinstance(tdefs[0], (ast.Assign, ast.AnnAssign)) or not (
+                            (isinstance(tdefs[0].value, ast.Dict) and not tdefs[0].value.keys)
+                            or (isinstance(tdefs[0].value, ast.Call) and isinstance(tdefs[0].value.func, ast.Name) and tdefs[0].value.func.id == "dict" and not tdefs[0].value.args and not tdefs[0].value.keywords)):
+                        continue
+                    writes = [x for x in ast.walk(m.tree) if isinstance(x, ast.Subscript) and isinstance(x.ctx, (ast.Store, ast.Del)) and isinstance(x.value, ast.Name) and x.value.id == tname]
+                    calls = [x for x in ast.walk(m.tree) if isinstance(x, ast.Call) and isinstance(x.func, ast.Attribute) and isinstance(x.func.value, ast.Name) and x.func.value.id == tname
+                             and x.func.attr in ("update", "setdefault", "pop", "popitem", "clear", "__setitem__")]
+                    if len(writes) != 1 or calls:
+                        continue
                 fparams = [x.arg for x in fn.args.args]
                 fdefaults = dict(zip(fparams[len(fparams) - len(fn.args.defaults):], fn.args.defaults))
                 keys, vals = [], []
@@ -440,9 +456,16 @@ class Index:
                         okd.append(dc)
                     if okd:
                         d.decorator_list = [dc for dc in d.decorator_list if dc not in okd]
-                if keys:
+                if keys and as_list:
+                    tdefs[0].value = ast.copy_location(ast.List(elts=vals, ctx=ast.Load()), tdefs[0].value)
+                    ast.fix_missing_locations(tdefs[0])
+                elif keys:
                     tdefs[0].value = ast.copy_location(ast.Dict(keys=keys, values=vals), tdefs[0].value)
                     ast.fix_missing_locations(tdefs[0])
+                if keys and not any(isinstance(x, ast.Name) and x.id == fn.name and isinstance(x.ctx, ast.Load) for x in ast.walk(m.tree)):
+                    # every use of the factory was a decorator and has been folded into the table: its store is spent (nothing mutates the
+                    # table any more, so lookups in it are lookups in a literal table)
+                    inner.body = [ast.copy_location(ast.Pass(), ib[0]) if st is ib[0] else st for st in inner.body]
         patterns = {}
         for m in self.modules.values():
             for ci in m.classes.values():
